@@ -264,8 +264,11 @@ func main() {
 		}
 		before := atomic.LoadInt32(&entered)
 		status := 0
+		method := "GET"
 		if route == "smoke" {
-			req, _ = http.NewRequest("GET", srv.URL+"/smoke-test"+q, nil)
+			// the gate is in front of the handler whatever the method (the smoke test itself ignores it)
+			method = []string{"GET", "GET", "POST", "PUT", "DELETE", "OPTIONS", "HEAD", "PATCH"}[rnd.Intn(8)]
+			req, _ = http.NewRequest(method, srv.URL+"/smoke-test"+q, nil)
 			req.Header = header
 			resp, err := http.DefaultClient.Do(req)
 			if err == nil {
@@ -292,8 +295,8 @@ func main() {
 		if cur != "" {
 			sec = "1"
 		}
-		fmt.Fprintf(os.Stdout, "AUTH route=%s secret=%s hdr=%s query=%s cookie=%s T0=%s T1=%s T2=%s | entered=%d status=%d kinds=%s/%s/%s\n",
-			route, sec, hdr, query, cookie, factTok(toks[0]), factTok(toks[1]), factTok(toks[2]), did, status, toks[0].kind, toks[1].kind, toks[2].kind)
+		fmt.Fprintf(os.Stdout, "AUTH route=%s secret=%s hdr=%s query=%s cookie=%s T0=%s T1=%s T2=%s | entered=%d status=%d kinds=%s/%s/%s method=%s\n",
+			route, sec, hdr, query, cookie, factTok(toks[0]), factTok(toks[1]), factTok(toks[2]), did, status, toks[0].kind, toks[1].kind, toks[2].kind, method)
 	}
 	// a token presented while valid and presented again after it has expired (same secret, no rotation)
 	cur = secrets[0]
